@@ -10,25 +10,32 @@ class Unencodable(Exception):
     pass
 
 
+ENC_BASE = 1114113
+
+
+def enc(s):
+    """Front.enc: strings as numbers (base-1114113 positional, digits ord(c)+1)."""
+    acc = 0
+    for c in s:
+        acc = acc * ENC_BASE + ord(c) + 1
+    return acc
+
+
 class Interner:
-    """Strings -> small integers, per case (URIs, scheme names, playlist names)."""
+    """URIs and scheme names -> numbers by Front.enc (injective, no table); playlist names -> small ints."""
 
     def __init__(self):
-        self.schemes = {"": 0}
         self.uris = {}
         self.names = {}
 
     def scheme(self, s):
-        if s not in self.schemes:
-            self.schemes[s] = len(self.schemes)
-        return self.schemes[s]
+        return enc(s)
 
     def uri(self, u):
         if not isinstance(u, str):
             raise Unencodable(f"non-string URI {u!r}")
-        if u not in self.uris:
-            self.uris[u] = len(self.uris) + 1
-        return f"({g_z(self.scheme(scheme_of(u)))}, {g_z(self.uris[u])})"
+        self.uris.setdefault(u, True)
+        return f"({g_z(enc(scheme_of(u)))}, {g_z(enc(u))})"
 
     def name(self, n):
         if n not in self.names:
@@ -231,10 +238,9 @@ ORDERED = {"browse", "get_items"}
 
 
 def case_term(case, obs):
+    if case["op"]["name"] == "raw":
+        return raw_case_term(case, obs)
     it = Interner()
-    for spec in case["backends"]:  # stable ids: backend schemes first
-        for s in spec["schemes"]:
-            it.scheme(s)
     bs = g_list([backend(spec, it) for spec in case["backends"]])
     mx = "None" if case.get("mixer") is None else f"(Some {script(case['mixer'], it)})"
     op = op_term(case["op"], it)
@@ -244,3 +250,42 @@ def case_term(case, obs):
     log = log_term(obs["log"], it)
     texts = g_list([f"({g_str(u)}, {g_str(scheme_of(u))})" for u in it.uris])
     return f"(mkCase {bs} {mx} {op} {g_bool(ordered)} {texts} ({log}, {outcome}))"
+
+
+RAW_CTOR = {"lookup": "RLookup", "get_images": "RImages", "browse": "RBrowse", "refresh": "RRefresh",
+            "get_items": "RGetItems", "delete": "RDelete", "set_volume": "RSetVolume", "set_mute": "RSetMute"}
+
+
+def raw_op_term(op):
+    import c09_validation as V
+
+    a = [V.spec_term(x) for x in op["args"]]
+    raw = op["raw"]
+    if raw == "search":
+        return f"(RSearch {squery(op['query'])} {a[0]} {a[1]})"
+    if raw == "get_distinct":
+        return f"(RDistinct {a[0]} {opt_squery(op['query'])})"
+    return f"({RAW_CTOR[raw]} {a[0]})"
+
+
+def raw_case_term(case, obs):
+    import c09_validation as V
+
+    it = Interner()
+    bs = g_list([backend(spec, it) for spec in case["backends"]])
+    mx = "None" if case.get("mixer") is None else f"(Some {script(case['mixer'], it)})"
+    out = obs["outcome"]
+    outcome = f"(Raise {KIND[out[1]]})" if out[0] == "raise" else f"(Ok {value_term(out[1], it)})"
+    a0 = case["op"]["args"][0]
+    ordered = case["op"]["raw"] in ("browse", "get_items") and a0[0] == "str"
+    log = log_term(obs["log"], it)
+    strings = list(it.uris)
+    for x in case["op"]["args"]:
+        V.spec_strings(x, strings)
+    texts = []
+    for u in dict.fromkeys(strings):
+        try:
+            texts.append(f"({g_str(u)}, {g_str(scheme_of(u))}, {g_z(enc(u))})")
+        except ValueError:
+            continue
+    return (f"(mkRCase {bs} {mx} {raw_op_term(case['op'])} {g_bool(ordered)} {g_list(texts)} ({log}, {outcome}))")
